@@ -352,6 +352,10 @@ func (x *gen) node3(depth int) *Node {
 		for i := range h {
 			if x.intr("hk", 0, 1) == 1 {
 				h[i] = x.length("h", 0.05, 1)
+				// the constructor documents h.Abs(): a negative component is the same elongation
+				if x.intr("hneg", 0, 3) == 0 {
+					h[i] = -h[i]
+				}
 			}
 		}
 		return &Node{Op: "elong3", K: []*Node{x.node3(depth - 1)}, P: h}
@@ -547,6 +551,9 @@ func (x *gen) node2(depth int) *Node {
 		for i := range h {
 			if x.intr("hk", 0, 1) == 1 {
 				h[i] = x.length("h", 0.05, 1)
+				if x.intr("hneg", 0, 3) == 0 {
+					h[i] = -h[i]
+				}
 			}
 		}
 		return &Node{Op: "elong2", K: []*Node{x.node2(depth - 1)}, P: h}
